@@ -281,9 +281,6 @@ def _sel_json(sel):
     return {'unit': sel.value}
 
 # ------------------------------------------------------------------ parametric maps
-_LUT1_ERROR = 'TypeError: len() of unsized object'
-
-
 def _is_single(m):
     return m['kind'] == 'lut' and len(m['lut']) == 1
 
@@ -414,12 +411,6 @@ def _check_pm(ctx, idx, reqs, pending):
                 ctx._c19_float_errors = getattr(ctx, '_c19_float_errors', 0) + 1
                 if ctx._c19_float_errors > 60:
                     ctx.hist('float_unreadable', path)
-                    return
-            # the open finding C19-single-entry-lut-unreadable fails on every such read: the first 40 are reported
-            if single_lut and detail == _LUT1_ERROR:
-                ctx._c19_lut1_errors = getattr(ctx, '_c19_lut1_errors', 0) + 1
-                if ctx._c19_lut1_errors > 40:
-                    ctx.hist('single_entry_lut_unreadable', path)
                     return
             ctx.fail(dict(case, path=path, frame=frame, **({'single_lut': True} if single_lut else {})),
                      detail or 'differs from the input plane', site=path)
@@ -1040,7 +1031,7 @@ def _float_witness(ctx):
 
 
 def _lut1_witness(ctx):
-    """fixed scenario of the open finding C19-single-entry-lut-unreadable: a 2-plane uint8 map holding only the value 7,
+    """fixed scenario of the finding C19-rwvm-single-entry-lut (fixed): a 2-plane uint8 map holding only the value 7,
     mapping = the one-entry table (7, 7) -> [2.5]; every frame must read as 2.5"""
     import highdicom as hd
     from highdicom.pm import ParametricMap, RealWorldValueMapping
@@ -1088,9 +1079,7 @@ def replay(ctx, case):
 def attribute(failure, open_findings):
     """C19-float-frames-unreadable: frames of float parametric maps cannot be read through the Image interface
     (get_stored_frame(s), lazy pixel_array, get_frame, get_volume): AttributeError on PixelData / PixelRepresentation.
-    C19-sc-bits-allocated-12: SCImage(bits_allocated=12) writes Bits Allocated 12, which pydicom does not decode.
-    C19-single-entry-lut-unreadable: get_frame(s)(apply_real_world_transform=True) raises TypeError when the selected
-    mapping is a look-up table with one entry (image.py wraps the bare number pydicom returns into a 0-d array)."""
+    C19-sc-bits-allocated-12: SCImage(bits_allocated=12) writes Bits Allocated 12, which pydicom does not decode."""
     ids = {f['id'] for f in open_findings}
     c = failure.get('case') or {}
     d = failure.get('detail')
@@ -1099,11 +1088,6 @@ def attribute(failure, open_findings):
             and (site.startswith('eager/') or site.startswith('lazy/')) and site not in ('eager/pixel_array', 'eager/open', 'lazy/open') \
             and isinstance(d, str) and d.startswith('AttributeError') and ('PixelData' in d or 'PixelRepresentation' in d):
         return 'C19-float-frames-unreadable'
-    # C19-single-entry-lut-unreadable: only reads with the real-world transform whose selected mapping is a one-entry table,
-    # and only the reader's own TypeError
-    if 'C19-single-entry-lut-unreadable' in ids and c.get('kind') == 'pm' and c.get('single_lut') is True \
-            and site.split('/')[-1] in ('rwvm', 'rwvm-batch') and d == _LUT1_ERROR:
-        return 'C19-single-entry-lut-unreadable'
     # C19-sc-bits-allocated-12: only SCImage(uint16 array, bits_allocated=12) in a native syntax, and only its three faces:
     # the object says Bits Allocated 12, pydicom refuses exactly that value, values >= 4096 are not checked
     if 'C19-sc-bits-allocated-12' in ids and c.get('kind') == 'sc' and c.get('ba') == 12 and c.get('dtype') == 'uint16' \
